@@ -302,4 +302,57 @@ Proof. eexists; eexists. split; [vm_compute; reflexivity | vm_compute; reflexivi
             ("C16_queries_read_only", "EffectsQueries.v", "queries_read_only"),
             ("C16_entry_points_present", "EffectsQueries.v", "entry_points_present"),
             ("C16_read_only_threads", "EffectsQueries.v", "read_only_footprints_give_read_only_threads")]),
+ "C13": dict(
+   header="""   C13 — MultidimensionalPGMIndex::range enumerates exactly the points inside the box.
+   Proved for every dimension count D >= 1 and width with D*field_bits <= 64 (in particular D in {2,3,4},
+   T in {uint32,uint64}), every multiset of encodable points and every box:
+   * C13_decode_encode / C13_box_zcontains_spec: Morton coding through pdep/pext round-trips, and the masked
+     per-dimension comparison is exactly the coordinate-wise box test;
+   * C13_bigmin_spec_general: BIGMIN (Tropf-Herzog) returns the least code inside the box greater than x, for
+     ALL widths, by induction on the bit index (plus exhaustive vm_compute instances as a cross-check);
+   * C13_range_spec: iterating range(min,max) to end() yields exactly the stored codes inside the box, with
+     multiplicity, in increasing Morton order, and terminates within its fuel -- relative to the inner
+     index's range contract (C02) as hypothesis Hrange;
+   * C13_multi_index_correct: the capstone: stored data = sorted encodings of the points; contains and
+     range are exact (after the two fixes recorded in known_findings.txt).
+   The listed axioms come from Flocq's definitions inside the inner index model.""",
+   imports=["Base", "PlaModel", "GenLeaf", "IndexModel", "MultiModel", "MultiMorton", "MultiRange", "MultiBigmin"],
+   entries=[("C13_decode_encode", "MultiMorton.v", "decode_encode"),
+            ("C13_box_zcontains_spec", "MultiMorton.v", "box_zcontains_spec"),
+            ("C13_bigmin_spec_general", "MultiBigmin.v", "bigmin_spec_general"),
+            ("C13_bigmin_spec_2d_3bit", "MultiBigmin.v", "bigmin_spec_2d_3bit"),
+            ("C13_range_spec", "@check", "range_spec"),
+            ("C13_range_spec_points", "@check", "range_spec_points"),
+            ("C13_multi_index_correct", "MultiBigmin.v", "multi_index_correct")]),
+ "C14": dict(
+   header="""   C14 — MultidimensionalPGMIndex::contains is exact set membership.  Proved for every multiset of
+   encodable points and every encodable query point, relative to the inner index's range contract (C02):
+   * C14_contains_spec: contains(p) = true iff encode(p) is among the stored codes;
+   * C14_encode_injective / C14_decode_encode: so iff p is one of the stored points;
+   * C14_multi_index_correct: the capstone statement (b = true <-> In p points).""",
+   imports=["Base", "PlaModel", "GenLeaf", "IndexModel", "MultiModel", "MultiMorton", "MultiRange", "MultiBigmin"],
+   entries=[("C14_contains_spec", "@check", "contains_spec"),
+            ("C14_encode_injective", "MultiMorton.v", "encode_injective"),
+            ("C14_decode_encode", "MultiMorton.v", "decode_encode"),
+            ("C14_multi_index_correct", "MultiBigmin.v", "multi_index_correct")]),
+ "C19": dict(
+   header="""   C19 — index objects are independent values.  PARTIAL BY NATURE (DESIGN.md 6.19).
+   Proved: in an abstract store where an object is a set of storage nodes with pointer members that are either
+   re-bound by the class's copy/move operations or copied verbatim,
+   * C19_indep_sound: if every pointer member is re-bound, a copy/move into fresh storage is well formed and
+     refers to NO node of its source (whatever is later done to the source);
+   * C19_verbatim_pointer_dangles: conversely a verbatim-copied pointer member still points into the source;
+   * C19_all_classes_indep: the decision procedure indep_b holds of PGMIndex, CompressedPGMIndex,
+     BucketingPGMIndex, EliasFanoPGMIndex, MultidimensionalPGMIndex, DynamicPGMIndex and every class reachable
+     through their members, on the member layout REGENERATED from the clang AST of the current source
+     (GenLayout.v): vector/value members deep-copy, sd_vector re-targets its own supports (checked in
+     sdsl.hpp), CompressedLevel::sel1 is re-bound by user-provided copy/move operations;
+   * C19_layout_nonvacuous: the translator saw the classes and the members that matter.
+   Trusted: that the translator sees every pointer-like member (it flags raw pointers, references and sdsl
+   support classes) and the C++ object model.  Run-time side: all copy/move/destroy/mutate orders under ASan.""",
+   imports=["GenLayout", "Ownership"],
+   entries=[("C19_indep_sound", "Ownership.v", "indep_sound"),
+            ("C19_verbatim_pointer_dangles", "Ownership.v", "verbatim_pointer_dangles"),
+            ("C19_all_classes_indep", "Ownership.v", "all_classes_indep"),
+            ("C19_layout_nonvacuous", "Ownership.v", "layout_nonvacuous")]),
 }
